@@ -25,13 +25,31 @@ package fiber
 //@ props C08
 
 // ---- the scoping rule of the property -----------------------------------------------------------------
-// A mount prefix p contains the path on a segment boundary: p is a prefix of the path that ends where a
+// A LITERAL mount prefix p contains the path on a segment boundary: p is a prefix of the path that ends where a
 // segment of the path ends (the whole path, or followed by '/', or p itself ends in '/': the root mount "/").
 //@ fn onBoundary(path string, p string) bool = len(p) > 0 && len(path) >= len(p) && path[:len(p)] == p && (len(path) == len(p) || path[len(p)] == '/' || p[len(p)-1] == '/')
+// A PARAMETERISED mount prefix (one with a parameter, wildcard or plus: hasAnyOf(p, ":*+"), strings.spec) is a pattern;
+// no path starts with the text "/t/:tenant". It contains the paths that the routes spliced in below it can match:
+// those matched by the pattern continued by "/*" (joinedPath(p, "/*"): the pattern a Use below the mount group is
+// registered with), matched in full (not as a partial/Use match) against the path as requested.
+// segsOf (zz_contracts_c03_verif.go) is the parse of a pattern, segsMatch (zz_contracts_verif.go) the matcher's answer
+// for a segment list: within one state (ep) both are functions of their arguments.
+//@ macro patternContains(path, p, ep) = segsMatch(segsOf(joinedPath(p, "/*"), ep), path, path, false, ep)
+// (a parameterised prefix whose pattern prefix+"/*" has more parameters than the matcher can store - maxParams - contains
+//  nothing: it is skipped instead of crashing the matcher, fix 5503238)
+//@ macro contains(path, p, ep) = (hasAnyOf(p, ":*+") ==> len(paramsOf(joinedPath(p, "/*"), ep)) <= maxParams && patternContains(path, p, ep)) && (!hasAnyOf(p, ":*+") ==> onBoundary(path, p))
+// keyWins(a, b): key a wins over key b - the longer one, and of two equally long keys (two parameterised prefixes of one
+// length can both contain a path) the one that is smaller in Go's string order. strcmp is the generator's name for that
+// order; the four raw SMT lines state that it is a strict total order (facts about Go strings, listed as assumptions).
+//@ fn keyWins(a string, b string) bool
+//@ smt (assert (forall ((a Str) (b Str)) (! (= (keyWins a b) (or (> (len a) (len b)) (and (= (len a) (len b)) (< (strcmp a b) 0)))) :pattern ((keyWins a b)))))
+//@ smt (assert (forall ((a Str)) (! (= (strcmp a a) 0) :pattern ((strcmp a a)))))
+//@ smt (assert (forall ((a Str) (b Str)) (! (and (= (< (strcmp a b) 0) (> (strcmp b a) 0)) (=> (= (strcmp a b) 0) (= a b))) :pattern ((strcmp a b)))))
+//@ smt (assert (forall ((a Str) (b Str) (c Str)) (! (=> (and (< (strcmp a b) 0) (< (strcmp b c) 0)) (< (strcmp a c) 0)) :pattern ((strcmp a b) (strcmp b c)))))
 
 // Key k of the mount list competes for the error: a mounted sub-app ("" is the app itself) that configured
 // its own handler and whose prefix contains the path. The innermost one is the one with the longest prefix.
-//@ macro scoped(app, k, path) = k != "" && indom(app.mountFields.appList, k) && app.mountFields.appList[k].configured.ErrorHandler != nil && onBoundary(path, k)
+//@ macro scoped(app, k, path) = k != "" && indom(app.mountFields.appList, k) && app.mountFields.appList[k].configured.ErrorHandler != nil && contains(path, k, epoch)
 
 // What New() establishes for every app and mounting preserves: the list exists, holds no nil app, and every
 // app has an effective handler (config.ErrorHandler is the configured one or DefaultErrorHandler).
@@ -51,26 +69,34 @@ package fiber
 
 // ErrorHandler: exactly one handler runs, once, with the error; which one is fixed by the scoping rule.
 // `range` over the mount list is modelled as an arbitrary order (seen(k) = keys visited so far), so the
-// postcondition is provable only if the choice does not depend on the order. The rank variable of the
-// loop (source name mountedPrefixParts) must be the length of the best prefix seen so far, which is then
-// path[:rank] - that is what makes the invariant free of existentials.
+// postconditions are provable only if the choice does not depend on the order. The rank variable of the loop (source
+// name mountedPrefixParts) is the length of the best key seen so far; the best key itself is not a variable of the
+// code, the invariant names it by an existential (for literal prefixes it is path[:rank]; a parameterised prefix is
+// not a piece of the path).
 // mount-tree-wf is start-up state that is frozen while requests are served (assumed, not a call-site obligation).
 //@ func (*App).ErrorHandler
 //@   assumes mount-tree-wf: wfMounts(app)
 //@   modifies ehCalls, ehFn, ehErr, ehRet, sentStatus, respHdr, respSet, heap
+// the pattern test of a parameterised prefix: the prefix continued by "/*", parsed without custom constraints, matched
+// in full against the request path (both arguments: the path as requested, nothing folded or trimmed)
+//@   atcall parseRoute: parameterised-prefix-continued-by-slash-star: hasAnyOf(prefix, ":*+") && pattern == joinedPath(prefix, "/*") && len(customConstraints) == 0
+//@   atcall (*routeParser).getMatch: request-path-in-full-against-the-prefix-pattern: parser.segs == segsOf(joinedPath(prefix, "/*"), epoch) && detectionPath == reqPath(ctx, epoch) && path == reqPath(ctx, epoch) && !partialCheck
 //@   loop 1
-//@     invariant rank-in-range: 0 <= mountedPrefixParts && mountedPrefixParts <= len(reqPath(ctx, epoch))
+//@     invariant nothing-delivered-yet: ehCalls == old(ehCalls) && epochNow == epoch
+//@     invariant rank-not-negative: 0 <= mountedPrefixParts
 //@     invariant none-yet: mountedPrefixParts == 0 ==> mountedErrHandler == nil
-//@     invariant best-is-seen: mountedPrefixParts > 0 ==> seen(reqPath(ctx, epoch)[:mountedPrefixParts])
-//@     invariant best-is-scoped: mountedPrefixParts > 0 ==> scoped(app, reqPath(ctx, epoch)[:mountedPrefixParts], reqPath(ctx, epoch))
-//@     invariant best-handler: mountedPrefixParts > 0 ==> mountedErrHandler == app.mountFields.appList[reqPath(ctx, epoch)[:mountedPrefixParts]].config.ErrorHandler
-//@     invariant no-longer-scoped-seen: forallS(j, seen(j) && scoped(app, j, reqPath(ctx, epoch)) ==> len(j) <= mountedPrefixParts)
+//@     invariant best-is-seen-and-scoped: mountedPrefixParts > 0 ==> seen(mountedPrefix) && scoped(app, mountedPrefix, reqPath(ctx, epoch)) && len(mountedPrefix) == mountedPrefixParts && mountedErrHandler == app.mountFields.appList[mountedPrefix].config.ErrorHandler
+//@     invariant no-better-scoped-seen: forallS(j, seen(j) && scoped(app, j, reqPath(ctx, epoch)) ==> mountedPrefixParts > 0 && (j == mountedPrefix || keyWins(mountedPrefix, j)))
 //@   ensures exactly-one-handler-call: ehCalls == old(ehCalls) + 1
 //@   ensures handler-gets-the-error: ehErr == err
 //@   ensures handler-result-returned: result == ehRet
 //@   ensures innermost-scoped-else-root: existsS(k, old(scoped(app, k, reqPath(ctx, epoch))) && ehFn == old(app.mountFields.appList[k].config.ErrorHandler) && forallS(j, old(scoped(app, j, reqPath(ctx, epoch))) ==> len(j) <= len(k))) ||
 //@ ..   (ehFn == old(app.config.ErrorHandler) && forallS(k, !old(scoped(app, k, reqPath(ctx, epoch)))))
-//@   ensures choice-is-a-function-of-path-and-mounts: forallS(k, old(scoped(app, k, reqPath(ctx, epoch))) && forallS(j, old(scoped(app, j, reqPath(ctx, epoch))) ==> len(j) <= len(k)) ==> ehFn == old(app.mountFields.appList[k].config.ErrorHandler))
+// the one sub-app that is strictly innermost (every other competing prefix is shorter) gets the error, whatever the order
+//@   ensures strictly-innermost-gets-the-error: forallS(k, old(scoped(app, k, reqPath(ctx, epoch))) && forallS(j, old(scoped(app, j, reqPath(ctx, epoch))) && j != k ==> len(j) < len(k)) ==> ehFn == old(app.mountFields.appList[k].config.ErrorHandler))
+// "the choice is a function of the request path and mount structure alone": the competing key that wins over every other
+// one (longer, or equally long and smaller) gets the error - whatever the iteration order of the mount list
+//@   ensures choice-is-a-function-of-path-and-mounts: forallS(k, old(scoped(app, k, reqPath(ctx, epoch))) && forallS(j, old(scoped(app, j, reqPath(ctx, epoch))) && j != k ==> keyWins(k, j)) ==> ehFn == old(app.mountFields.appList[k].config.ErrorHandler))
 
 // ---- the default handler: the status of a framework error becomes the response status ---------------
 // isFiberErr/fiberErrCode: what errors.As(err, &e) with e *Error finds (mw_C08.spec).
@@ -165,16 +191,28 @@ package fiber
 //@   requires separate-lists: app.mountFields != nil && app.mountFields.appList != nil && subApp.mountFields != nil && subApp.mountFields.appList != nil && app.mountFields.appList != subApp.mountFields.appList
 //@   requires joined-prefixes-distinct: forallS(a, forallS(b, indom(subApp.mountFields.appList, a) && indom(subApp.mountFields.appList, b) && a != b ==> forallS(p, joinedPath(p, a) != joinedPath(p, b))))
 //@   requires sub-app-lists-itself: indom(subApp.mountFields.appList, "") && subApp.mountFields.appList[""] == subApp
+// The normalised prefix - the local `prefix` that the loop joins the sub-app's keys to and that is registered - is the
+// rooted form of the argument without its trailing slashes ("" -> "/", "api" -> "/api"); a parameter name denotes the
+// entry value in clauses, so the local is named through the formal of getGroupPath / register.
+//@   atcall getGroupPath: keys-joined-to-the-rooted-trimmed-prefix: prefix == rooted(last(@utils.TrimRight))
 //@   loop 1
-//@     invariant registered-so-far: (last(@utils.TrimRight) == "" ==> seenListed(app, "/")) && (last(@utils.TrimRight) != "" ==> seenListed(app, last(@utils.TrimRight)))
-//@     invariant own-entry-joins-to-the-prefix: seen("") ==> (last(@utils.TrimRight) == "" ==> joinedPath("/", "") == "/") && (last(@utils.TrimRight) != "" ==> joinedPath(last(@utils.TrimRight), "") == last(@utils.TrimRight))
+//@     invariant registered-so-far: seenListed(app, rooted(last(@utils.TrimRight)))
+//@     invariant own-entry-joins-to-the-prefix: seen("") ==> joinedPath(rooted(last(@utils.TrimRight)), "") == rooted(last(@utils.TrimRight))
 //@     invariant nothing-dropped: forallS(k, old(indom(app.mountFields.appList, k)) ==> indom(app.mountFields.appList, k))
 //@     invariant sub-list-unchanged: forallS(k, (indom(subApp.mountFields.appList, k) <==> old(indom(subApp.mountFields.appList, k))) && subApp.mountFields.appList[k] == old(subApp.mountFields.appList[k]))
 //@     invariant seen-are-listed-in-sub: forallS(k, seen(k) ==> indom(subApp.mountFields.appList, k))
-//@   atcall (*App).register: whole-subtree-registered: (last(@utils.TrimRight) == "" ==> subtreeListed(app, "/")) && (last(@utils.TrimRight) != "" ==> subtreeListed(app, last(@utils.TrimRight)))
-//@   atcall (*App).register: the-sub-app-itself-under-the-prefix: (last(@utils.TrimRight) == "" ==> indom(app.mountFields.appList, "/") && app.mountFields.appList["/"] == old(subApp)) && (last(@utils.TrimRight) != "" ==> indom(app.mountFields.appList, last(@utils.TrimRight)) && app.mountFields.appList[last(@utils.TrimRight)] == old(subApp))
+// The property: the key of a sub-app in the mount list (what ErrorHandler compares the request path with, MountPath, the
+// view lookup) is the path its routes are registered under. register roots the pattern it is given (rooted(pathRaw): a
+// leading slash is added when there is none), so the sub-app - and every app listed by the sub-app, below it - has to be
+// listed under rooted(pathRaw), not under the prefix as written (`app.Use("api", sub)` serves /api/...).
+//@   atcall (*App).register: sub-app-and-its-subtree-listed-under-the-path-the-routes-are-registered-under: subtreeListed(app, rooted(pathRaw))
+//@   atcall (*App).register: the-sub-app-listed-under-the-path-its-routes-are-registered-under: indom(app.mountFields.appList, rooted(pathRaw)) && app.mountFields.appList[rooted(pathRaw)] == old(subApp)
 //@   atcall (*App).register: nothing-dropped: forallS(k, old(indom(app.mountFields.appList, k)) ==> indom(app.mountFields.appList, k))
-//@   atcall (*App).register: [C04] marker-under-normalised-prefix: isTrimmed(last(@utils.TrimRight), old(prefix)) && (last(@utils.TrimRight) == "" ==> pathRaw == "/") && (last(@utils.TrimRight) != "" ==> pathRaw == last(@utils.TrimRight))
+// A mount made after the application was started has to be seen by the next start: both once-only start-up steps (list
+// completion - appendSubAppLists enters the sub-apps that are mounted INTO the new sub-app later on -, and the splice) are
+// offered again: the two Once values are zero when the marker is registered.
+//@   atcall (*App).register: both-start-up-steps-re-armed: iszero(app.mountFields.subAppsProcessed) && iszero(app.mountFields.subAppsRoutesAdded)
+//@   atcall (*App).register: [C04] marker-under-normalised-prefix: isTrimmed(last(@utils.TrimRight), old(prefix)) && rooted(pathRaw) == rooted(last(@utils.TrimRight))
 //@   atcall (*App).register: [C04] marker-of-the-sub-app: arg0 == app && group != nil && group.Prefix == pathRaw && group.app == old(subApp) && len(handlers) == 0 && len(methods) == 1 && methods[0] == "USE"
 
 // Mounting below a group: the same, relative to the group prefix, into the list of the group's app.
@@ -184,15 +222,16 @@ package fiber
 //@   requires joined-prefixes-distinct: forallS(a, forallS(b, indom(subApp.mountFields.appList, a) && indom(subApp.mountFields.appList, b) && a != b ==> forallS(p, joinedPath(p, a) != joinedPath(p, b))))
 //@   requires sub-app-lists-itself: indom(subApp.mountFields.appList, "") && subApp.mountFields.appList[""] == subApp
 //@   loop 1
-//@     invariant registered-so-far: (last(@utils.TrimRight) == "" ==> seenListed(grp.app, "/")) && (last(@utils.TrimRight) != "" ==> seenListed(grp.app, last(@utils.TrimRight)))
-//@     invariant own-entry-joins-to-the-prefix: seen("") ==> (last(@utils.TrimRight) == "" ==> joinedPath("/", "") == "/") && (last(@utils.TrimRight) != "" ==> joinedPath(last(@utils.TrimRight), "") == last(@utils.TrimRight))
+//@     invariant registered-so-far: seenListed(grp.app, groupPath)
+//@     invariant own-entry-joins-to-the-prefix: seen("") ==> joinedPath(groupPath, "") == groupPath
 //@     invariant nothing-dropped: forallS(k, old(indom(grp.app.mountFields.appList, k)) ==> indom(grp.app.mountFields.appList, k))
 //@     invariant sub-list-unchanged: forallS(k, (indom(subApp.mountFields.appList, k) <==> old(indom(subApp.mountFields.appList, k))) && subApp.mountFields.appList[k] == old(subApp.mountFields.appList[k]))
 //@     invariant seen-are-listed-in-sub: forallS(k, seen(k) ==> indom(subApp.mountFields.appList, k))
-//@   atcall (*App).register: whole-subtree-registered: (last(@utils.TrimRight) == "" ==> subtreeListed(grp.app, "/")) && (last(@utils.TrimRight) != "" ==> subtreeListed(grp.app, last(@utils.TrimRight)))
-//@   atcall (*App).register: the-sub-app-itself-under-the-prefix: (last(@utils.TrimRight) == "" ==> indom(grp.app.mountFields.appList, "/") && grp.app.mountFields.appList["/"] == old(subApp)) && (last(@utils.TrimRight) != "" ==> indom(grp.app.mountFields.appList, last(@utils.TrimRight)) && grp.app.mountFields.appList[last(@utils.TrimRight)] == old(subApp))
+//@   atcall (*App).register: sub-app-and-its-subtree-listed-under-the-path-the-routes-are-registered-under: subtreeListed(grp.app, rooted(pathRaw))
+//@   atcall (*App).register: the-sub-app-listed-under-the-path-its-routes-are-registered-under: indom(grp.app.mountFields.appList, rooted(pathRaw)) && grp.app.mountFields.appList[rooted(pathRaw)] == old(subApp)
 //@   atcall (*App).register: nothing-dropped: forallS(k, old(indom(grp.app.mountFields.appList, k)) ==> indom(grp.app.mountFields.appList, k))
-//@   atcall (*App).register: [C04] marker-under-normalised-joined-prefix: isTrimmed(last(@utils.TrimRight), joinedPath(old(grp.Prefix), old(prefix))) && (last(@utils.TrimRight) == "" ==> pathRaw == "/") && (last(@utils.TrimRight) != "" ==> pathRaw == last(@utils.TrimRight))
+//@   atcall (*App).register: both-start-up-steps-re-armed: iszero(grp.app.mountFields.subAppsProcessed) && iszero(grp.app.mountFields.subAppsRoutesAdded)
+//@   atcall (*App).register: [C04] marker-under-normalised-joined-prefix: isTrimmed(last(@utils.TrimRight), joinedPath(old(grp.Prefix), old(prefix))) && rooted(pathRaw) == rooted(last(@utils.TrimRight))
 //@   atcall (*App).register: [C04] marker-of-the-sub-app: arg0 == grp.app && group != nil && group.Prefix == pathRaw && group.app == old(subApp) && len(handlers) == 0 && len(methods) == 1 && methods[0] == "USE"
 
 // Start-up completion of the list for sub-apps that mounted further apps after they were mounted themselves:
